@@ -13,7 +13,7 @@ open N2V.Depfile (G)
 
 /-- The errors `load::read` reports to the user. -/
 def Diagnosed : LoadErr → Prop
-  | .parse _ _ _ _ => True
+  | .parse _ _ ofs view => ∃ buf : Array UInt8, ofs ≤ buf.size ∧ view = formatParseError buf ofs
   | .dupOutput _ _ _ => True
   | .other k => k ∈ ["empty path", "read", "include nesting", "unknown rule", "invalid deps attribute",
       "rspfile and rspfile_content need to be both specified"]
@@ -124,7 +124,9 @@ theorem stmtLoop_total (ie : Bool) (fs : Fs) (file : Bytes) (depth : Nat)
     have hro := readItem_ok1 buf (sc.buf.size + 1) sc g (by rw [g.w.hb]; omega)
     unfold stmtLoop
     cases hri : readItem (sc.buf.size + 1) sc with
-    | perr msg ofs => trivial
+    | perr msg ofs =>
+      rw [hri] at hro
+      exact ⟨sc.buf, by rw [g.w.hb]; exact hro, rfl⟩
     | bad r => rw [hri] at hro; exact absurd hro (by simp [Ok1])
     | ok item sc' =>
       rw [hri] at hro
